@@ -38,4 +38,8 @@ PROPS = {
             "theorems": "props/C19.v", "rule": "x", "trusted_base": TB_COMMON},
     "C17": {"stages": [{"harness": "PROC", "corr": "corr.C17", "n": {"quick": 300, "thorough": 4000}, "shard": 25}],
             "theorems": "props/C19.v", "rule": "x", "trusted_base": TB_COMMON},
+    "C05": {"stages": [{"harness": "THROTTLE", "corr": "corr.C05", "n": {"quick": 300, "thorough": 5000}, "shard": 25}],
+            "theorems": "props/C19.v", "rule": "x", "trusted_base": TB_COMMON},
+    "C06": {"stages": [{"harness": "THROTTLE", "corr": "corr.C06", "n": {"quick": 300, "thorough": 5000}, "shard": 25}],
+            "theorems": "props/C19.v", "rule": "x", "trusted_base": TB_COMMON},
 }
